@@ -1,10 +1,14 @@
 /-
   C17 — Well-formed input never crashes; ill-formed wiring is rejected up front.
   Model: `verify` (BartiqModel/Verify.lean: qref's `verify_topology` + bartiq's `verify_uncompiled_repetitions`) is the
-  first step of `compileRoutineWith`.  PARTIAL: that no exception originates inside sympy is outside any model of bartiq.
+  first step of `compileRoutineWith`.  The places where the Python code would fail with a `KeyError`, `CycleError` or
+  `AssertionError` are modelled as `Err.internal`; `C17_compile_raises_only_own_errors` shows them unreachable on soundly
+  wired trees (`Routine.sound`, BartiqModel/Sound.lean — executable, evaluated by the driver on every generated routine).
+  PARTIAL: that no exception originates inside sympy is outside any model of bartiq.
 -/
 import BartiqModel.Pipeline
 import BartiqProofs.SortTreeLemmas
+import BartiqProofs.NoInternal
 namespace Bartiq
 
 /-- any topology or repetition problem anywhere in the hierarchy ⇒ a compilation error, before preprocessing or compilation
@@ -77,6 +81,47 @@ theorem C17_ordering_fails_only_on_cycles (names ord : List String) (conns : Lis
   · cases ho : Graph.staticOrder (childGraph names conns) with
     | none => exact Graph.cycle_of_staticOrder_none _ ho
     | some o => rw [ho] at h; cases h
+
+/-- **well-formed input never crashes `_compile`**: on a soundly wired tree — local variables without circular definitions,
+    every connection starting at a port that exists on the side it starts from, repetition wrappers of the propagated shape —
+    `_compile` either returns a result or raises bartiq's own compilation error; the `KeyError` / `CycleError` /
+    `AssertionError` sites are unreachable.  All hierarchies, all depths, all five sequence kinds, any comparator. -/
+theorem C17_compile_raises_only_own_errors (C : Comparator) (r : Routine) (inputs : Dict Expr) (path : String) (e : Err)
+    (hs : r.sound = true) (h : compile C inputs path r = .error e) : e.isInternal = false :=
+  compile_no_internal C r inputs path e hs h
+
+/-- … and so does the whole pipeline once preprocessing and the ordering of children have produced a sound tree (the driver
+    reports `sound` for the tree they produce on every generated routine): verification raises compilation errors only -/
+theorem C17_pipeline_raises_only_own_errors (stages : List Stage) (C : Comparator) (skip : Bool) (r r1 r2 : Routine) (e : Err)
+    (hp : preprocessWith stages r = .ok r1) (ho : sortTree r1 = .ok r2) (hs : r2.sound = true)
+    (h : compileRoutineWith stages C skip r = .error e) : e.isInternal = false := by
+  unfold compileRoutineWith at h
+  rcases Except.bind_error h with h | ⟨_, _, h⟩
+  · cases skip with
+    | true => simp [pure, Except.pure] at h
+    | false =>
+      simp only [Bool.false_eq_true, if_false] at h
+      unfold verify at h
+      simp only at h
+      split at h
+      · simp [pure, Except.pure] at h
+      · simp only [throw, throwThe, MonadExceptOf.throw, Except.error.injEq] at h; subst h; rfl
+  · rw [hp] at h
+    simp only [bind, Except.bind] at h
+    rw [ho] at h
+    exact compile_no_internal C r2 [] r2.name e hs h
+
+/-- a compiled node carries an additive/multiplicative resource under every name its source (or, for a repetition wrapper,
+    its only child) promises — what makes the wrapper's assertions hold at every nesting depth -/
+theorem C17_wrapper_assertions_hold (C : Comparator) (r : Routine) (inputs : Dict Expr) (path : String) (c : CRoutine)
+    (h : compile C inputs path r = .ok c) (n : String) (hn : n ∈ r.amNames) : ∃ x ∈ c.resources, x.name = n ∧ x.ty.isAM = true :=
+  compile_am C r inputs path c h n hn
+
+-- non-vacuity: a wrapper with the propagated resource over a leaf that has it is sound; with a resource the leaf lacks it is not
+example : (Routine.mk "w" none [] [] [] [] [⟨"T", .additive, .sym "l.T"⟩] [] (some ⟨.sym "N", .constant (.num 1)⟩) []
+    [Routine.mk "l" none [] [] [] [] [⟨"T", .additive, .num 3⟩] [] none [] [] []] []).sound = true := by decide +kernel
+example : (Routine.mk "w" none [] [] [] [] [⟨"U", .additive, .sym "l.U"⟩] [] (some ⟨.sym "N", .constant (.num 1)⟩) []
+    [Routine.mk "l" none [] [] [] [] [⟨"T", .additive, .num 3⟩] [] none [] [] []] []).sound = false := by decide +kernel
 
 -- non-vacuity: a.out -> b.in, b.out -> a.in is such a cycle
 example : Graph.Before (childGraph ["a", "b"] [(⟨some "a", "out"⟩, ⟨some "b", "in"⟩), (⟨some "b", "out"⟩, ⟨some "a", "in"⟩)]) "a" "a" :=
